@@ -79,15 +79,39 @@ def _judge_found(ctx, tree, flavour, api, name, res, origin, extra_detail=None):
 
 def lookup_job(ctx, binary, tree, flavour, names, tag):
     nf = os.path.join(ctx.tmp, tag + ".names")
+    ff = os.path.join(ctx.tmp, tag + ".fifos")
     outp = os.path.join(ctx.tmp, tag + ".jsonl")
     with open(nf, "w") as fh:
         for n in names:
             fh.write((n.hex() or "-") + "\n")
-    rr = vf.run_harness(binary, ["--mode", "lookup", "--assets", flavour, "--root", tree.root, "--ext", tree.ext, "--names", nf,
-                                 "--reload", 500, "--out", outp], timeout=900, out_file=outp)
+    tree.write_fifo_list(ff)
+    if os.environ.get("VF_C20_NOFEED"):          # validation switch: no pipe feeder, so a lookup that opens a pipe blocks (watchdog path)
+        open(ff, "w").close()
+    base = ["--mode", "lookup", "--assets", flavour, "--root", tree.root, "--ext", tree.ext, "--names", nf, "--reload", 500,
+            "--fifos", ff, "--fifotoken", tree.fifo_token.decode(), "--out", outp]
+    start, records, hangs, rr = 0, [], [], None
+    while True:
+        rr = vf.run_harness(binary, base + ["--from", start], timeout=900, out_file=outp)
+        records += rr.records
+        hang = [r for r in rr.records if r.get("t") == "hang"]
+        if not hang:
+            break
+        if len(hangs) >= 3:                       # enough witnesses; the rest of this batch is not run
+            rr.abandoned = True
+            break
+        # a lookup sat in open()/read() with no progress: confirm it alone, then go on after it
+        h = hang[0]
+        solo = vf.run_harness(binary, ["--mode", "lookup", "--assets", flavour, "--root", tree.root, "--ext", tree.ext, "--names", nf, "--from", h["i"],
+                                       "--fifos", ff, "--fifotoken", tree.fifo_token.decode(), "--stallms", 12000, "--out", outp + ".solo"],
+                              timeout=300, out_file=outp + ".solo")
+        h["reproduced"] = any(r.get("t") == "hang" and r.get("i") == h["i"] for r in solo.records)
+        hangs.append(h)
+        start = h["i"] + 1
+    rr.records = records
+    rr.hangs = hangs
     rr.names = names
     rr.flavour = flavour
-    for p in (nf, outp):
+    for p in (nf, ff, outp, outp + ".solo"):
         try:
             os.unlink(p)
         except OSError:
@@ -97,10 +121,25 @@ def lookup_job(ctx, binary, tree, flavour, names, tag):
 
 def judge_lookups(ctx, tree, rr):
     flavour, names = rr.flavour, rr.names
-    if rr.timed_out or rr.rc != 0 or not any(r.get("t") == "done" for r in rr.records):
+    if (rr.timed_out or rr.rc != 0 or not any(r.get("t") == "done" for r in rr.records)) and not getattr(rr, "abandoned", False):
         ctx.inconcl("lookup batch (%s) did not complete: rc=%s timed_out=%s stderr=%s" % (flavour, rr.rc, rr.timed_out, rr.err[-300:]))
+    if getattr(rr, "abandoned", False):
+        ctx.obs("lookup_batches_abandoned_after_three_blocked_lookups")
+    for h in getattr(rr, "hangs", []):
+        name = names[h["i"]]
+        kind = _rootkind(flavour, h["api"])
+        nk = tree.named_kind(kind, name)[0] if kind else "?"
+        if h.get("reproduced"):
+            ctx.violation("C20:non-regular:%s:lookup-blocked" % nk,
+                          "%s %s(%r) neither answered nor refused: the lookup sat in %s() on an object the OS reports as %s (twice: in the batch and alone)" %
+                          (flavour, "getStatic" if h["api"] == "s" else "getTemplate", name[:80], h.get("syscall"), nk),
+                          dict(name=name.hex(), name_repr=repr(name[:200]), flavour=flavour, api=h["api"], syscall=h.get("syscall"), resolves_to=nk))
+        else:
+            ctx.inconcl("lookup of %r (%s) stalled once in %s() but not when re-run alone" % (name[:80], flavour, h.get("syscall")))
     for r in rr.records:
-        if "i" not in r:
+        if r.get("t") == "done":
+            ctx.obs("fifo_feeder_writes", r.get("fifo_feeds", 0))
+        if "i" not in r or "s" not in r:
             continue
         name = names[r["i"]]
         ncls = cn.name_class(name)
@@ -115,6 +154,19 @@ def judge_lookups(ctx, tree, rr):
                 ctx.obs("lookup_threw")
                 continue
             named = tree.named_file(kind, name) if kind else None
+            nkind, npath = tree.named_kind(kind, name) if kind else ("n/a", None)
+            if nkind in ("fifo", "socket", "chardev", "blockdev", "other"):
+                ctx.obs("asked_for_" + nkind)
+                if st != "F":
+                    ctx.obs("refused_non_regular_" + nkind)
+                else:
+                    rbase = os.path.realpath(tree.roots[kind])
+                    where = "inside" if npath.startswith(rbase + os.sep) else "outside"
+                    ctx.violation("C20:non-regular:%s:served" % nkind,
+                                  "%s %s(%r) reported Found for a name the OS resolves to a %s (%s the root), not a regular file" %
+                                  (flavour, "getStatic" if api == "s" else "getTemplate", name[:80], nkind, where),
+                                  dict(name=name.hex(), name_repr=repr(name[:200]), flavour=flavour, api=api, resolves_to=os.path.relpath(npath, tree.case) if where == "inside" else npath,
+                                       head=bytes.fromhex(res["b"]["head"])[:80].decode("latin1")))
             inside = False
             if named:
                 rbase = os.path.realpath(tree.roots[kind])
@@ -195,7 +247,10 @@ def sweep_job(ctx, binary, flavour, thorough, seed, mode, iters=0):
     with open(sf, "w") as fh:
         for api, n, t, what in specs:
             fh.write("%s %s %s %s\n" % (flavour, api, os.fsencode(n).hex(), os.fsencode(t).hex()))
-    args = ["--mode", mode, "--root", tree.root, "--ext", tree.ext, "--secret", tree.secret, "--prefix", tree.case, "--specs", sf, "--out", outp]
+    ff = os.path.join(ctx.tmp, "%s-%s.fifos" % (mode, flavour))
+    tree.write_fifo_list(ff)
+    args = ["--mode", mode, "--root", tree.root, "--ext", tree.ext, "--secret", tree.secret, "--prefix", tree.case, "--specs", sf, "--out", outp,
+            "--fifos", ff, "--fifotoken", tree.fifo_token.decode()]
     if mode == "race":
         args += ["--iters", iters, "--seed", seed]
     rr = vf.run_harness(binary, args, timeout=1800, out_file=outp)
@@ -205,11 +260,15 @@ def sweep_job(ctx, binary, flavour, thorough, seed, mode, iters=0):
 
 def judge_sweep(ctx, rr, summary):
     tree, specs, flavour = rr.tree, rr.specs, rr.flavour
-    if rr.timed_out or rr.rc != 0 or not any(r.get("t") == "done" for r in rr.records):
+    if rr.timed_out or rr.rc != 0 or not any(r.get("t") in ("done", "hang") for r in rr.records):
         ctx.inconcl("%s (%s) did not complete: rc=%s timed_out=%s stderr=%s" % (rr.mode, flavour, rr.rc, rr.timed_out, rr.err[-300:]))
     for r in rr.records:
         t = r.get("t")
-        if t == "skip":
+        if t == "hang":
+            api, n, tgt, what = specs[r["i"]]
+            ctx.violation("C20:non-regular:lookup-blocked:%s" % rr.mode, "%s lookup of %r sat in %s() without progress during the %s" % (flavour, n, r.get("syscall"), rr.mode),
+                          dict(name=n, flavour=flavour, api=api, replaced=os.path.relpath(tgt, tree.case)))
+        elif t == "skip":
             ctx.inconcl("%s: spec %s could not be prepared" % (rr.mode, specs[r["spec"]]))
         elif t == "count":
             api, n, tgt, what = specs[r["spec"]]
@@ -333,6 +392,8 @@ def run(ctx):
         leaf_variants=len(leaves), windows=sum(l["windows"] for l in leaves),
         distinct_names=len({(l["flavour"], l["api"], l["name"], l["replaced"]) for l in leaves}),
         leaves=leaves if len(leaves) <= 80 else leaves[:80] + [dict(truncated=len(leaves) - 80)])
+    ctx.extra["non_regular_objects"] = dict(static=tree.specials["static"], templates=tree.specials["templates"], ext=tree.specials["ext"],
+                                            note="plus symlinks to them and to /dev/null, /dev/zero, /dev; .gz siblings that are pipes, sockets, directories, device links")
     ctx.extra["tree"] = dict(static_files=len(tree.files["static"]), static_symlinks=len(tree.links["static"]), template_files=len(tree.files["templates"]),
                              ext_files=len(tree.files["ext"]), symlinks=tree.links["static"])
     ctx.rule = ("a lookup that reports Found must return the exact bytes of a file that os.lstat says is regular and whose os.path.realpath lies under the "
@@ -351,7 +412,8 @@ def run(ctx):
     ctx.require_obs("found_inside_plain", "found_inside_symlink_file", "found_inside_symlink_dir", "found_with_gzip_variant",
                     "refused_name_that_resolves_to_the_secret", "refused_name_that_the_os_resolves_outside_the_root", "refused_dotdot_segment",
                     "sweep_windows", "sweep_swaps_fired", "sweep_call_realpath", "sweep_call_stat", "sweep_call_io",
-                    "race_flips", "race_found", "sweep_result_found", "sweep_result_notfound", "sweep_result_rejected")
+                    "race_flips", "race_found", "sweep_result_found", "sweep_result_notfound", "sweep_result_rejected",
+                    "refused_non_regular_fifo", "refused_non_regular_socket", "refused_non_regular_chardev")
     shutil.rmtree(tree.case, ignore_errors=True)
 
 
